@@ -194,6 +194,11 @@ impl<'a> Gen<'a> {
                 }
             }),
             Ty::Str | Ty::DedupStr => Val::Str(self.string(rng)),
+            Ty::SharedStrs => {
+                let n = rng.usize_below(self.size.min(6) + 1);
+                let pool: Vec<String> = (0..3).map(|_| self.string(rng)).collect();
+                Val::Seq((0..n).map(|_| Val::Str(rng.pick(&pool).clone())).collect())
+            }
             Ty::Duration if self.boundary => Val::Tuple(vec![
                 Val::U(*rng.pick(&[u64::MAX as u128, u64::MAX as u128 - 1, u64::MAX as u128 - 4, 0])),
                 Val::U(*rng.pick(&[999_999_999u128, 1_000_000_000, 1_999_999_999, 4_294_967_295, 4_000_000_000])),
